@@ -594,6 +594,54 @@ pub fn run(tier: Tier) -> i32 {
         exhaustive: true,
         extra: vec![],
     });
+    // call histories of length 2: project(A -> a) directly followed by project(B -> b) on one thread
+    {
+        let lens = tier.pick(4, 5);
+        let mut calls: Vec<(Vec<usize>, Vec<usize>)> = Vec::new();
+        for sh in shapes(2, 1, lens, usize::MAX) {
+            for t in crate::enumerate::indices(&sh) {
+                calls.push((sh.clone(), t.iter().map(|x| x + 1).collect()));
+            }
+        }
+        let res = par_map(calls.len(), |i| {
+            let (a_shape, a_to) = &calls[i];
+            let a = RefArray::from_fn(a_shape, |f, _| (f + 1) as f64);
+            let mut viols: Vec<Viol> = Vec::new();
+            for (b_shape, b_to) in &calls {
+                let b = RefArray::from_fn(b_shape, |f, _| ((f * 3) % 7 + 1) as f64);
+                let expect = b.project(b_to);
+                let got = catch(|| {
+                    let _ = scs_from_ref(&a).project(Shape(a_to.clone()));
+                    scs_from_ref(&b).project(Shape(b_to.clone())).map(|s| ref_from_spectrum(&s)).map_err(|e| e.to_string())
+                });
+                match got {
+                    Ok(Ok(g)) if arr_close(&g, &expect) => {}
+                    other => {
+                        if viols.len() < 2 {
+                            viols.push((
+                                "C03|lib|projection-depends-on-previous-call".into(),
+                                format!("project {b_shape:?} -> {b_to:?} directly after project {a_shape:?} -> {a_to:?} on the same thread gives {other:?}, expected {:?}", expect.data),
+                                J::obj([("kind", J::s("c03-hist")), ("first_shape", J::usizes(a_shape)), ("first_to", J::usizes(a_to)), ("shape", J::usizes(b_shape)), ("to", J::usizes(b_to))]),
+                            ));
+                        }
+                    }
+                }
+            }
+            viols
+        });
+        for v in res.into_iter().flatten() {
+            rep.violation(v.0, v.1, v.2);
+        }
+        let n = (calls.len() * calls.len()) as u64;
+        rep.part(Part {
+            name: "lib: projection after projection (call histories of length 2)".into(),
+            evaluations: n,
+            nontrivial: n,
+            note: format!("every ordered pair of the {} (shape, target) projections with <=2 axes and lengths <={lens}, run back to back on one thread; the second result must equal the reference", calls.len()),
+            exhaustive: true,
+            extra: vec![],
+        });
+    }
     rep.sample(J::obj([
         ("shape", J::usizes(&[4, 3])),
         ("basis", J::usizes(&[2, 1])),
@@ -725,6 +773,23 @@ pub fn replay(case: &J) -> Option<Vec<String>> {
                 _ => check_shape(&shape).2,
             };
             Some(fmt(v))
+        }
+        "c03-hist" => {
+            let a_shape = case.get("first_shape")?.as_usizes()?;
+            let a_to = case.get("first_to")?.as_usizes()?;
+            let b_shape = case.get("shape")?.as_usizes()?;
+            let b_to = case.get("to")?.as_usizes()?;
+            let a = RefArray::from_fn(&a_shape, |f, _| (f + 1) as f64);
+            let b = RefArray::from_fn(&b_shape, |f, _| ((f * 3) % 7 + 1) as f64);
+            let expect = b.project(&b_to);
+            let got = catch(|| {
+                let _ = scs_from_ref(&a).project(Shape(a_to.clone()));
+                scs_from_ref(&b).project(Shape(b_to.clone())).map(|s| ref_from_spectrum(&s)).map_err(|e| e.to_string())
+            });
+            Some(match got {
+                Ok(Ok(g)) if arr_close(&g, &expect) => vec![],
+                other => vec![format!("C03|lib|projection-depends-on-previous-call :: {other:?}, expected {:?}", expect.data)],
+            })
         }
         "c03-cli" => {
             let c = CliCase {
